@@ -43,6 +43,10 @@ TYPES = [
     ("numeric(10,2)[]", "numeric[]", (10, 2)), ("decimal(10,2) unsigned", "decimal unsigned", (10, 2)), ("int unsigned", "int unsigned", None),
     ("varchar(5)[]", "varchar[]", 5),
     ("ARRAY<STRING>", "ARRAY<STRING>", None), ("ARRAY<ARRAY<INT>>", "ARRAY<ARRAY<INT>>", None), ("STRUCT<a:STRUCT<b:INT>>", "STRUCT<a:STRUCT<b:INT>>", None),
+    # depth 4, closing brackets glued / partly detached
+    ("MAP<STRING, ARRAY<STRUCT<x:INT, y:ARRAY<INT> >>>", "MAP<STRING,ARRAY<STRUCT<x:INT,y:ARRAY<INT>>>>", None),
+    ("MAP<STRING, ARRAY<STRUCT<x:INT, y:ARRAY<INT>>>>", "MAP<STRING,ARRAY<STRUCT<x:INT,y:ARRAY<INT>>>>", None),
+    ("ARRAY<STRUCT<a:INT, b:ARRAY<MAP<STRING,INT>> >>", "ARRAY<STRUCT<a:INT,b:ARRAY<MAP<STRING,INT>>>>", None),
 ]
 NT = len(TYPES)
 TOPTS = [("", {}), (" NOT NULL", {"nullable": False}), (" DEFAULT 1", {"default": 1}), (" COMMENT 'c'", {"comment": "'c'"}),
@@ -122,7 +126,9 @@ def c_type(ti: int, oi: int, pos: int, pv: int) -> bool:
 
 
 FIRSTS = ["CREATE TABLE z (a int CHECK (a > 1));", "CREATE TABLE z (a int);\nALTER TABLE z ADD CONSTRAINT k CHECK (a > 1);", "CREATE TABLE z (a int DEFAULT 1);",
-          "CREATE TABLE z (a MAP<STRING,INT>);", "CREATE TABLE z LIKE y;", "CREATE SEQUENCE zq START 1;"]
+          "CREATE TABLE z (a MAP<STRING,INT>);", "CREATE TABLE z LIKE y;", "CREATE SEQUENCE zq START 1;",
+          # an unpaired '<' outside a CHECK, in an unsupported and in a supported earlier statement
+          "CREATE VIEW v AS SELECT id FROM o WHERE amount < 5;", "CREATE TABLE z (a int);\nCREATE INDEX i1 ON z (a) WHERE a < 5;"]
 NF = len(FIRSTS)
 
 
@@ -137,14 +143,14 @@ def c_type_after(ti: int, fi: int) -> bool:
     post: _
     """
     res = run(FIRSTS[fi] + "\n" + _c09_case(ti, 1, 1, 0))
-    return isinstance(res, list) and len(res) >= 2 and _c09_ok([res[-1]], ti, 1, 1, 0)
+    return isinstance(res, list) and len(res) >= 1 and _c09_ok([res[-1]], ti, 1, 1, 0)
 
 
 def api_c_type_after(ti, fi):
     from simple_ddl_parser import DDLParser
     ddl = FIRSTS[fi] + "\n" + _c09_case(ti, 1, 1, 0)
     got = DDLParser(ddl).run()
-    return {"ddl": ddl, "got": got, "expected_type": TYPES[ti][1], "reproduced": not (len(got) >= 2 and _c09_ok([got[-1]], ti, 1, 1, 0))}
+    return {"ddl": ddl, "got": got, "expected_type": TYPES[ti][1], "reproduced": not (len(got) >= 1 and _c09_ok([got[-1]], ti, 1, 1, 0))}
 
 
 def api_c_type(ti, oi, pos, pv):
